@@ -3,7 +3,7 @@
 import os, re, subprocess, sys
 V = os.path.dirname(os.path.dirname(os.path.abspath(__file__)))
 s = open(os.path.join(V, "DESIGN.md")).read()
-for b in sys.argv[1:] or ["c", "d", "e", "f"]:
+for b in sys.argv[1:] or ["c", "d", "e", "f", "g", "h", "i"]:
     tab = subprocess.check_output([sys.executable, os.path.join(V, "tools", "design_table.py"), b], text=True)
     rows = tab.splitlines()[2:]
     m = re.search(r"(\| C\d\d-%s\d \|[^\n]*\n)+" % b, s)
